@@ -51,6 +51,10 @@ def gen_tree(rng, root):
             c = rng.random()
             k = counter[0]
             counter[0] += 1
+            if c > 0.9:
+                # text beyond ASCII, in a comment or as data: every file of a program is read the same way
+                out.append(rng.choice(['# d\u00e9p\u00f4t \u2013 \u00df', 'string gr\u00fc\u00dfe', '# \u4e2d\u6587', 'string \u20ac 5', 'nop  # \u00b5s']))
+                continue
             if c < 0.2:
                 consts.append('C%d' % k)
                 out.append('C%d = %d' % (k, rng.randrange(0, 2000)))
@@ -257,7 +261,16 @@ def run_tree(asm, acc, seed, idx, ncli):
                 if (idx + k) % 3 == 1:
                     args.append('--include-definitions')
                     acc['ctr']['cli_runs_with_bundled_definitions_on_the_path'] += 1
-                r = cli.run_cli(args, cwds[cw])
+                env = None
+                if (idx + k) % 2 == 1 and all(pth.isascii() for pth in list(t.files) + list(t.incdirs)) and all('include' not in ln or ln.isascii() for lns in t.files.values() for ln in lns):
+                    # (trees with ASCII file names only: in such a process Python itself cannot name other files)
+                    # the same command line in a process whose locale is not UTF-8: how a file is decoded does not depend on whether it is
+                    # the main file or an included one
+                    env = {'LC_ALL': 'C', 'LANG': 'C', 'PYTHONUTF8': '0', 'PYTHONCOERCECLOCALE': '0'}
+                    acc['ctr']['cli_runs_under_the_C_locale'] += 1
+                    if any(any(ord(ch) > 127 for ch in ln) for pth, lns in t.files.items() if pth != t.main for ln in lns):
+                        acc['ctr']['cli_runs_under_the_C_locale_with_non_ascii_text_in_an_included_file'] += 1
+                r = cli.run_cli(args, cwds[cw], extra_env=env)
                 acc['ctr']['cli_runs'] += 1
                 acc['ntkeys'].add(core.ckey(seed, idx, 'cli', cw, compress))
                 core.see(acc, 'cells', 'cli/%s' % cw)
